@@ -70,14 +70,32 @@ def enum_cases(tier):
 bpm_st = st.one_of(st.sampled_from([60.0, 120.0, 173.5, 200.0]), st.floats(1.0, 1000.0, allow_nan=False), st.integers(20, 400).map(float))
 
 
+# the re-seater's extend threshold is 0.001 of a measure (= 1/250 beat) past a measure line and 0.001 beat past a beat line
+SLIVERS = [F(1, 10000), F(1, 1001), F(1, 1000), F(1, 999), F(3, 1000), F(1, 500), F(1, 250), F(1, 249), F(1, 200), F(1, 100)]
+
+
+def sliver_case(tier):
+    return random_case(tier, modes=("sliver", "sliver", "frac", "whole-interval", "to-measure-line"))
+
+
 @st.composite
-def random_case(draw, tier):
+def random_case(draw, tier, modes=("frac", "frac", "whole-interval", "to-measure-line")):
+    MODES = list(modes)
     k = draw(st.integers(1, 8))
     den = draw(st.sampled_from([1, 2, 3, 4, 5, 6, 7, 8, 12, 16, 24, 32, 48, 96]))
     pos = [F(0)]
     for _ in range(k - 1):
-        mode = draw(st.sampled_from(["frac", "frac", "whole-interval", "to-measure-line"]))
-        if mode == "whole-interval":
+        mode = draw(st.sampled_from(MODES))
+        if mode == "sliver":
+            # a hair past a measure or beat line, 1..3 measures / 1..7 beats after the previous change: the two
+            # "extend" branches of the re-seater (threshold 0.001 measure = 1/250 beat), both sides of the threshold
+            eps = draw(st.sampled_from(SLIVERS))
+            if draw(st.booleans()):
+                line = (pos[-1] // 4 + draw(st.integers(1, 3))) * 4
+            else:
+                line = pos[-1] // 1 + draw(st.integers(1, 7))
+            pos.append(line + eps)
+        elif mode == "whole-interval":
             pos.append(pos[-1] + 4 * draw(st.integers(1, 3)))
         elif mode == "to-measure-line":
             pos.append((pos[-1] // 4 + draw(st.integers(1, 3))) * 4)
@@ -85,7 +103,9 @@ def random_case(draw, tier):
             pos.append(pos[-1] + F(draw(st.integers(1, 6 * den)), den))
     bp = [draw(bpm_st) for _ in pos]
     init = draw(st.one_of(st.sampled_from([0.0, -1234.5, 500.0]), st.floats(-1e6, 1e6, allow_nan=False)))
-    entry = draw(st.sampled_from(["list", "from", "reseat"]))
+    # TimingMap.reseat() goes through milliseconds and re-derives positions with the snapper (grid 1/1..1/96 beat):
+    # positions finer than that grid (the slivers) are only meaningful for the two entry points that take positions
+    entry = draw(st.sampled_from(["list", "from", "reseat"] if "sliver" not in MODES else ["list", "from"]))
     return dict(init=init, entry=entry, changes=[[b, frs(p)] for b, p in zip(bp, pos)])
 
 
@@ -107,6 +127,11 @@ def check(case, ctx):
     ctx.label("off-measure", off_measure)
     ctx.label("k=%d" % min(len(pos), 5))
     ctx.label("neg-init", init < 0)
+    sl = [p % 1 for p in pos if 0 < p % 1 <= F(1, 100)]
+    ctx.label("sliver<=threshold", any(x <= F(1, 250) for x in sl))
+    ctx.label("sliver>threshold", any(x > F(1, 250) for x in sl))
+    ctx.label("sliver-past-measure-line", any(0 < p % 4 <= F(1, 250) for p in pos))
+    ctx.label("sliver-past-beat-line(F26 class)", _first_beat_sliver(case) is not None)
 
     L = [BpmChangeSnap(b, m, Snap(me, be, m)) for b, m, me, be in inp]
     if entry == "list":
@@ -177,9 +202,37 @@ def check(case, ctx):
         ctx.fail("not-idempotent", f"bpm(t={d[0]}) {d[1]} -> {d[2]}")
 
 
+def _first_beat_sliver(case):
+    """index of the first change that lies within (0, 0.001] beat past a beat line which is not a measure line, counted
+    from the previous change (the re-seater's 'extend by metronome' branch), or None"""
+    pos = [fr(p) for _, p in case["changes"]]
+    for i, (a, b) in enumerate(zip(pos, pos[1:]), start=1):
+        d = b - a
+        if 0 < d % 1 <= F(1, 1000) and (d // 1) % 4 != 0:
+            return i
+    return None
+
+
+def _beat_sliver_time_lost(case, failure):
+    """F26: the failing change / interval is at or after the first beat-line sliver of the list."""
+    import re
+
+    j = _first_beat_sliver(case)
+    if j is None:
+        return False
+    m = re.search(r"(change|interval) (\d+)", failure.msg)
+    if not m:
+        return False
+    idx = int(m.group(2))
+    return idx >= (j if m.group(1) == "change" else j - 1)
+
+
+KNOWN_PREDICATES = {"beat_sliver_time_lost": _beat_sliver_time_lost}
+
 SUBS = [
     Sub("exhaustive-halfbeat", check, enumerate=enum_cases, shards={"quick": 8, "thorough": 16}, exhaustive=True),
     Sub("random", check, strategy=random_case, examples={"quick": 2000, "thorough": 12000}, shards={"quick": 4, "thorough": 16}),
+    Sub("sliver", check, strategy=sliver_case, examples={"quick": 1500, "thorough": 8000}, shards={"quick": 4, "thorough": 16}),
 ]
 
 MANIFEST = dict(
